@@ -40,7 +40,7 @@ def async_records(job):
     """one scenario per driver: a caller sends a list of commands one by one; returns tx records"""
     drv, items = job
     sc = {"driver": drv, "keep_writes": 1, "first_seq": 250,
-          "callers": [{"name": "A", "unit": items, "mode": "send"}]}
+          "callers": [{"name": "A", "unit": items, "mode": "send", "continue_on": ["UnsupportedFrameTypeError", "ValueError"]}]}
     r = drivers.run_scenario(sc)
     recs = []
     writes = r["writes"]
@@ -50,7 +50,15 @@ def async_records(job):
     wire = r["wire"]
     # expand units into wire commands (ENABLE DEVICE TYPE prefixes are commands of their own)
     sent = []
-    for d in desc:
+    results = caller["results"]
+    for k, d in enumerate(desc):
+        if d["bits"] not in (16, 24):
+            # a frame length the gateway cannot carry, in the middle of a long run: refused, nothing written, and the
+            # run goes on (the sequence numbers after it are judged with the rest)
+            refused = k < len(results) and results[k]["k"] == "exc"
+            recs.append({"kind": "tx", "drv": drv, "bits": d["bits"], "frame": 1, "twice": 0, "query": 0, "dt": 0,
+                         "writes": [], "exc": results[k]["cls"] if refused else "none"})
+            continue
         if d["dt"]:
             sent.append({"frame": 0xC100 | d["dt"], "bits": 16, "twice": 0, "query": 0, "dt": 0})
         sent.append(d)
@@ -268,7 +276,10 @@ def run(tier, seed, replay=None):
         for drv in ("tridonic", "hasseb", "luba", "sci"):
             keys = KEYS16 + (KEYS24 if drv != "hasseb" else [])
             if drv == "tridonic":
-                jobs.append((drv, [[rng.choice(keys), rng.randrange(256)] for _ in range(n)]))     # > 600 consecutive sends
+                items = [[rng.choice(keys), rng.randrange(256)] for _ in range(n)]     # > 600 consecutive sends ...
+                for pos in (40, 41, 300):                                               # ... with refusals in between
+                    items.insert(pos, [rng.choice(["odd8", "odd25"]), rng.randrange(256)])
+                jobs.append((drv, items))
             else:
                 for _ in range(4):
                     jobs.append((drv, [[rng.choice(keys), rng.randrange(256)] for _ in range(n // 8)]))
